@@ -182,6 +182,14 @@ pub fn pumping(ev: Ev) -> Vec<String> {
             fit(format!("med(3{})", rep(",1,2", n / 2 + 1)), &mut out);
             fit(format!("avg(1{})", rep(",2", n)), &mut out);
             fit(format!("max({}1{})", rep("max(", n / 2), rep(")", n / 2)), &mut out);
+            // every aggregate nested in itself around a value that makes an inner result special (an infinite
+            // sum, the placeholder at the ends of the range): a level that evaluates its operand twice costs 2^depth
+            for name in ["min", "max", "avg", "med"] {
+                for inner in ["1/0", "@", "0/0"] {
+                    fit(format!("{}{}{}", rep(&format!("{}(", name), n / 2 + 1), inner, rep(")", n / 2 + 1)), &mut out);
+                    fit(format!("{}{}{}", rep(&format!("{}({},", name, inner), n / 3 + 1), inner, rep(")", n / 3 + 1)), &mut out);
+                }
+            }
         }
         if ev.has_point() {
             fit(format!("{}.{}", rep("9", n), rep("9", n)), &mut out);
